@@ -661,6 +661,349 @@ def unicode_identifiers_part(check, reported_langs):
         sweep(check, lang, make_cases(check.rng, lang, n, check.thorough, pools=unicode_pools), reported_langs, part="unicode-identifiers")
 
 
+# ------------------------------------------------------------------------------------------ Rust syntax inside type expressions
+
+# User types of the source-text part: name -> kinds of its generic parameters (lt = lifetime, ty = type, const = const generic).
+# `Foo`, `Bar`, `Item`, `Id`, `Wrapper`, `Url` are names the type-mapping tables (MAPS) mention; they take no type argument, so that
+# a mapped text (`{ a: number }`, `List<Int>`) never gets a type-argument list of its own by a legal use of the configuration.
+RS_USER = [("Name", ["lt"]), ("Span", ["lt", "lt"]), ("Matrix", ["const"]), ("Grid", ["const", "const"]), ("Slot", ["lt", "const"]),
+           ("Tagged", ["lt", "ty"]), ("Buf", ["ty", "const"]), ("Window", ["lt", "ty", "const"]), ("Pair", ["ty", "ty"]),
+           ("Boxed", ["ty"]), ("Plain", []), ("Foo", ["lt"]), ("Bar", ["const"]), ("Item", ["lt", "const"]), ("Id", []),
+           ("Wrapper", ["lt", "lt"]), ("Url", [])]
+RS_MAPPED = {"Foo", "Bar", "Item", "Id", "Wrapper", "Url"}
+RS_CONST_LITERALS = ["3", "0", "16usize", "0x10", "1_000", "true", "false", "'x'", "'\\n'", "-1", "b'a'", "255u8"]
+RS_CONST_BLOCKS = ["{ N }", "{N}", "{ 3 }", "{ N + 1 }", "{ 2 * 8 }", "{ SIZE }", "{ usize::MAX }", "{ core::mem::size_of::<u32>() }",
+                   "{ if N > 0 { N } else { 1 } }", "{ M }", "{ { 4 } }"]
+RS_LEAVES = ["u8", "u32", "i32", "f64", "bool", "String", "char", "i16"]
+RS_FIELD_NAMES = ["name", "nick", "grid", "cells", "first", "last", "items", "slot", "owner", "label", "value", "window", "extra", "tag_line"]
+RS_TYPE_NAMES = ["Person", "Scene", "Holder", "Frame", "Record", "Layout", "Packet", "Shape", "Event", "Message", "Entry", "Sheet"]
+
+
+class RustTypeText:
+    """type expressions as Rust *source text*, with the syntax typeshare reads past: lifetime arguments, const generic
+    arguments (literals, blocks, bare paths), empty angle brackets, associated-type bindings, turbofish and qualified paths"""
+
+    def __init__(self, rng, users, feats):
+        self.rng, self.users, self.feats = rng, users, feats
+        self.lts, self.tys, self.consts = [], [], []      # parameters of the item being written (declared in first-use order)
+        self.no_type_arg = []                             # the user-type references of this item whose brackets hold no type argument
+
+    def feat(self, k):
+        self.feats[k] = self.feats.get(k, 0) + 1
+
+    def lifetime(self):
+        lt = self.rng.choice(["'a", "'a", "'a", "'b", "'static", "'_"])
+        if lt in ("'a", "'b") and lt not in self.lts:
+            self.lts.append(lt)
+        return lt
+
+    def const_arg(self, may_be_path):
+        """(text, is it read as a type argument?)"""
+        k = self.rng.choice(["literal", "literal", "block", "block", "path"])
+        if k == "path" and not may_be_path:
+            k = "block"
+        if k == "literal":
+            self.feat("argument:const-literal")
+            return self.rng.choice(RS_CONST_LITERALS), False
+        if k == "block":
+            self.feat("argument:const-block")
+            b = self.rng.choice(RS_CONST_BLOCKS)
+            for p in ("N", "M"):
+                if re.search(r"\b%s\b" % p, b) and p not in self.consts:
+                    self.consts.append(p)
+            return b, False
+        # a const parameter written as a bare path is indistinguishable from a type for a parser: typeshare keeps it as a type argument
+        self.feat("argument:const-bare-path(read-as-a-type)")
+        p = self.rng.choice(["N", "M"])
+        if p not in self.consts:
+            self.consts.append(p)
+        return p, True
+
+    def leaf(self):
+        r = self.rng.random()
+        if r < 0.12:
+            t = self.rng.choice(["T", "U"])
+            if t not in self.tys:
+                self.tys.append(t)
+            return t
+        if r < 0.22:
+            return "&%s str" % self.lifetime()
+        if r < 0.3:
+            return "Cow<%s, str>" % self.lifetime()          # a lifetime argument next to a type argument, on a type that is read through
+        return self.rng.choice(RS_LEAVES)
+
+    def wrap(self, inner, pos):
+        """one generic-argument / element position around `inner`: (text, position name)"""
+        w = self.rng.choice(["Option", "Vec", "HashMap", "Box", "ref", "array", "slice", "Cow-less", "Arc", "std-path"])
+        if w == "Option" and not inner.startswith("Option"):
+            return "Option<%s>" % inner, "option-argument"
+        if w == "Vec":
+            return "Vec<%s>" % inner, "vec-element"
+        if w == "HashMap":
+            return "HashMap<String, %s>" % inner, "map-value"
+        if w == "Box":
+            return self.rng.choice(["Box<%s>", "Box< %s >", "Rc<%s>", "Box<%s,>"]) % inner, "smart-pointer-argument"
+        if w == "ref":
+            return "&%s %s" % (self.lifetime(), inner), "behind-a-reference"
+        if w == "array":
+            return "[%s; %s]" % (inner, self.rng.choice(["3", "4usize", "0x10"])), "array-element"
+        if w == "slice":
+            return "&%s [%s]" % (self.lifetime(), inner), "slice-element"
+        if w == "Arc":
+            return "std::sync::Arc<%s>" % inner, "smart-pointer-argument"
+        if w == "std-path":
+            return "std::vec::Vec<%s>" % inner, "vec-element"
+        return inner, pos
+
+    def user(self, depth):
+        """a reference to a user type; records what its brackets hold"""
+        name, kinds = self.rng.choice(self.users)
+        mapped = name in RS_MAPPED
+        lts = [self.lifetime() for k in kinds if k == "lt"]
+        rest, n_type = [], 0
+        for k in kinds:
+            if k == "ty":
+                rest.append(self.ty(depth + 1))
+                n_type += 1
+            elif k == "const":
+                text, as_type = self.const_arg(may_be_path=not mapped)
+                rest.append(text)
+                n_type += as_type
+        style = self.rng.choice(["faithful"] * 6 + ["elided-lifetimes", "no-brackets", "empty-brackets", "shuffled", "binding", "extra-lifetime"])
+        brackets = True
+        if style == "faithful":
+            args = lts + rest
+        elif style == "elided-lifetimes":
+            args = rest
+            brackets = bool(rest) or self.rng.random() < 0.3
+            lts = []
+        elif style == "no-brackets":
+            args, brackets, lts, n_type = [], False, [], 0
+        elif style == "empty-brackets":
+            args, lts, n_type = [], [], 0
+        elif style == "shuffled":
+            # rustc wants lifetimes first; a parser does not: every order of lifetime, const and type arguments
+            args = lts + rest
+            self.rng.shuffle(args)
+        elif style == "binding":
+            # an associated-type binding / constraint is an argument that is not a type argument either
+            args = lts + rest + [self.rng.choice(["Item = u8", "Output = String", "Item: Clone", "Item = Name<'static>"])]
+            self.feat("argument:associated-type-binding")
+        else:
+            args = lts + [self.lifetime()] + rest
+        if not brackets:
+            self.feat("brackets:none")
+            text = name
+        else:
+            n_lt = sum(1 for a in args if re.match(r"'[A-Za-z_]+\Z", a))
+            n_const = len(args) - n_lt - n_type - (1 if style == "binding" else 0)
+            what = "+".join(x for x, n in (("lifetime", n_lt), ("const", n_const), ("binding", style == "binding"), ("type", n_type)) if n) or "empty"
+            self.feat("brackets:" + what)
+            if n_type == 0:
+                self.feat("brackets-without-a-type-argument")
+            if len({("lt" if re.match(r"'[A-Za-z_]+\Z", a) else "other") for a in args}) == 2 and not re.match(r"'[A-Za-z_]+\Z", args[0]):
+                self.feat("argument-order:lifetime-after-another-kind")
+            fmt = self.rng.choice(["%s<%s>"] * 5 + ["%s <%s>", "%s< %s >", "%s::<%s>", "%s<%s,>", "%s<\n        %s\n    >"])
+            if not args and fmt == "%s<%s,>":
+                fmt = "%s<%s>"
+            if fmt == "%s::<%s>":
+                self.feat("path:turbofish-in-type-position")
+            if fmt == "%s<%s,>":
+                self.feat("argument-list:trailing-comma")
+            text = fmt % (name, self.rng.choice([", ", ",", " , "]).join(args))
+            if n_type == 0:
+                self.no_type_arg.append(" ".join(text.split()))
+        q = self.rng.random()
+        if q < 0.08:
+            text = self.rng.choice(["crate::", "self::", "super::model::", "crate::types::"]) + text
+            self.feat("path:qualified")
+        return text
+
+    def ty(self, depth):
+        """a type for a type-argument position"""
+        r = self.rng.random()
+        if depth >= 3 or r < 0.35:
+            return self.leaf()
+        if r < 0.7:
+            return self.user(depth)
+        return self.wrap(self.ty(depth + 1), "")[0]
+
+    def positioned(self, pos):
+        """a user-type reference at a field / payload / alias position, directly or one or two argument positions down"""
+        t = self.user(0)
+        for _ in range(self.rng.choice([0, 0, 0, 1, 1, 2])):
+            t, pos = self.wrap(t, pos)
+        if pos == "generic-argument-of-a-user-type" or self.rng.random() < 0.12:
+            # as an argument of a user generic
+            other = self.rng.choice(["Pair<%s, u8>", "Boxed<%s>", "Pair<String, %s>", "Tagged<'static, %s>"])
+            t, pos = other % t, "generic-argument-of-a-user-type"
+        self.feat("position:" + pos)
+        return t
+
+    def generics(self, extra=()):
+        """the parameter list of the item just written: lifetimes, then types and consts (with bounds and defaults now and then)"""
+        ps = []
+        for lt in sorted(self.lts):
+            ps.append(lt + (": 'static" if self.rng.random() < 0.1 else ""))
+        if "'b" in self.lts and "'a" in self.lts and self.rng.random() < 0.3:
+            ps[-1] = "'b: 'a"
+        rest = [t + self.rng.choice(["", "", ": Clone", ": Clone + Default"]) for t in self.tys]
+        rest += ["const %s: usize" % c + (" = 4" if self.rng.random() < 0.15 and not self.tys else "") for c in self.consts]
+        if self.rng.random() < 0.3 and not any("= 4" in x for x in rest):
+            self.rng.shuffle(rest)        # types and consts may be interleaved
+        ps += rest
+        return "<%s>" % ", ".join(ps) if ps else ""
+
+
+def rs_declaration(rng, name, kinds):
+    """the declaration of a user type of RS_USER: a struct, an algebraic enum or an alias, with the generics its kinds say"""
+    lts = ["'a", "'b"][:kinds.count("lt")]
+    tys = ["T", "U"][:kinds.count("ty")]
+    cs = ["N", "M"][:kinds.count("const")]
+    ps = lts + tys + ["const %s: usize" % c for c in cs]
+    g = "<%s>" % ", ".join(ps) if ps else ""
+    members = ["&%s str" % lt for lt in lts] + list(tys) + (["Vec<f64>"] if cs else []) + (["u32"] if not ps else [])
+    form = rng.choice(["struct", "struct", "struct", "enum", "alias"])
+    if form == "alias" and len(tys) == 2:
+        form = "struct"              # (a map whose key is a type parameter is refused by the TypeScript and Python back ends)
+    if form == "struct":
+        body = "".join("    pub m%d: %s,\n" % (i, m) for i, m in enumerate(members))
+        return "#[typeshare]\npub struct %s%s {\n%s}\n" % (name, g, body)
+    if form == "enum":
+        body = "".join("    V%d(%s),\n" % (i, m) for i, m in enumerate(members))
+        return "#[typeshare]\n#[serde(tag = \"type\", content = \"content\")]\npub enum %s%s {\n%s    Nothing,\n}\n" % (name, g, body)
+    target = "Vec<%s>" % tys[0] if tys else "Cow<'a, str>" if lts else "Vec<f64>" if cs else "String"
+    return "#[typeshare]\npub type %s%s = %s;\n" % (name, g, target)
+
+
+def rs_item(rng, users, feats, name):
+    """one item whose type expressions refer to the user types: (source text, the bracketed references without a type argument)"""
+    w = RustTypeText(rng, users, feats)
+    form = rng.choice(["struct", "struct", "struct", "enum", "enum", "alias", "newtype"])
+    fields = rng.sample(RS_FIELD_NAMES, rng.randint(1, 4))
+    if form == "struct":
+        lines = []
+        for f in fields:
+            if rng.random() < 0.1:
+                # the type given as a string: parsed by the same type reader (`serialized_as`)
+                saved = w.lts, w.tys, w.consts
+                w.lts, w.tys, w.consts = [], [], []
+                lines.append("    #[typeshare(serialized_as = \"%s\")]\n    pub %s: Opaque,\n" % (" ".join(w.positioned("serialized_as-string").split()).replace('"', ""), f))
+                w.lts, w.tys, w.consts = saved
+            else:
+                lines.append("    pub %s: %s,\n" % (f, w.positioned("struct-field")))
+        text = "#[typeshare]\npub struct %s%s {\n%s}\n" % (name, w.generics(), "".join(lines))
+    elif form == "enum":
+        vs = []
+        for i, f in enumerate(fields):
+            k = rng.choice(["tuple", "tuple", "struct", "unit"]) if i else "tuple"
+            if k == "tuple":
+                vs.append("    %s(%s),\n" % (to_pascal(f), w.positioned("tuple-variant-payload")))
+            elif k == "struct":
+                vs.append("    %s { %s: %s, other: %s },\n" % (to_pascal(f), f, w.positioned("struct-variant-field"), w.leaf()))
+            else:
+                vs.append("    %s,\n" % to_pascal(f))
+        text = "#[typeshare]\n#[serde(tag = \"type\", content = \"content\")]\npub enum %s%s {\n%s}\n" % (name, w.generics(), "".join(vs))
+    elif form == "alias":
+        t = w.positioned("alias-target")
+        text = "#[typeshare]\npub type %s%s = %s;\n" % (name, w.generics(), t)
+    else:
+        t = w.positioned("newtype-payload")
+        text = "#[typeshare]\npub struct %s%s(pub %s);\n" % (name, w.generics(), t)
+    return text, w.no_type_arg
+
+
+RS_HEADER = "use std::borrow::Cow;\nuse std::collections::HashMap;\n\npub const SIZE: usize = 4;\n\n"
+
+
+def rs_case(rng, lang):
+    feats = {}
+    users = rng.sample(RS_USER, rng.randint(3, 7))
+    decls = [rs_declaration(rng, n, k) for n, k in users if rng.random() < 0.8]
+    items, item_refs, refs = [], [], []
+    for name in rng.sample(RS_TYPE_NAMES, rng.randint(1, 4)):
+        text, r = rs_item(rng, users, feats, name)
+        items.append(text)
+        item_refs.append(r)
+        refs += r
+    everything = decls + items
+    rng.shuffle(everything)
+    cfg = config_for(rng, lang)
+    return dict(lang=lang, cfg=cfg, texts=[RS_HEADER + "\n".join(everything)], items=items, item_refs=item_refs, feats=feats, multi=False,
+                names=set(), about=rs_about(refs))
+
+
+def rs_about(refs):
+    if not refs:
+        return "no user type of the source is written with brackets that lack a type argument"
+    return "the source writes user types with angle brackets that hold no type argument: %s" % ", ".join("`%s`" % x for x in sorted(set(refs))[:6])
+
+
+def rs_run(lang, cases):
+    """implementation and model on source-text cases: fills in `r`; returns the model's answers (None where the translator
+    does not support the source or the source does not parse)"""
+    import corpus
+    for c in cases:
+        c["r"] = corpus.runner_req(lang, c["cfg"], c["texts"][0])
+    asts = corpus.translate([c["texts"][0] for c in cases])
+    lines, idx, names = [], [], set()
+    for i, (c, a) in enumerate(zip(cases, asts)):
+        c["translated"] = "ok" if "ok" in a else "unsupported: %s" % a["unsupported"] if "unsupported" in a else "source does not parse"
+        if "ok" in a:
+            names |= corpus.names_of(a)
+            lines.append(corpus.model_line(lang, c["cfg"], a))
+            idx.append(i)
+    mans = [None] * len(cases)
+    if lines:
+        for i, m in zip(idx, corpus.run_model(lines, names, [cases[i]["texts"][0] for i in idx])):
+            if "bad-request" in m:
+                raise InfraError("the model rejected the translated source: %s\n%s" % (m, cases[i]["texts"][0]))
+            mans[i] = l2.norm(m)
+    return mans
+
+
+def rs_smaller(check, c):
+    """the first item of the case that alone (without the declarations it refers to: typeshare does not resolve names) still gets
+    an output the oracle rejects without a known class"""
+    for it, refs in zip(c["items"], c["item_refs"]):
+        small = dict(c, texts=[it], items=[it], item_refs=[refs], smaller=None)
+        ma = rs_run(c["lang"], [small])[0]
+        ra = runner([small["r"]])[0]
+        if not isinstance(ra.get("ok"), dict):
+            continue
+        lex = {name: model([[S("lexok"), S(c["lang"]), text]], with_unicode=False)[0].get("ok") for name, text in ra["ok"].items()}
+        bad = judge(check, small, ra, lex)
+        if bad:
+            small["about"] = "reduced to one item of the generated case; " + rs_about(refs)
+            return small, bad[0], ma, ma is None or ma == l2.norm(ra)
+    return None
+
+
+def rust_type_syntax_part(check, reported_langs):
+    """Rust syntax inside type expressions that typeshare must read past - as *source text* (the abstract generator of the
+    main sweep has no lifetimes or const arguments in types).  The dimension: references to user types (declared in the same file
+    as structs, algebraic enums or aliases with lifetime / type / const parameters; six of the names are also keys of the type-
+    mapping tables) whose angle brackets hold lifetime arguments (`'a`, `'static`, `'_`), const generic arguments (integer, bool,
+    char and byte literals, negative literals, blocks `{ N }`, `{ N + 1 }`, `{ core::mem::size_of::<u32>() }`, bare paths), type
+    arguments, associated-type bindings, or nothing (`Foo<>`) - in the declared order, with elided lifetimes, without brackets,
+    and shuffled into every order; with trailing commas, turbofish (`Name::<'a>`), qualified paths, blanks and line breaks inside
+    the brackets; at struct-field, tuple-variant payload, struct-variant field, alias-target, newtype-payload and `serialized_as`
+    string positions, directly and as Option / Vec / HashMap / Box / Rc / Arc / reference / array / slice element and as argument
+    of a user generic; the items' own parameter lists carry lifetimes, bounds, const parameters with defaults, interleaved.  All
+    six back ends, random configurations.  Demanded: the implementation's output is accepted by the language's recogniser - in
+    particular a type-argument list is never empty (`Name<>`, `Name[]`), whatever non-type arguments the source wrote - and the
+    text equals the model's on the translated source (runner op `ast`)"""
+    n = 2000 if check.thorough else 160
+    for lang in LANGS:
+        cases = [dict(rs_case(check.rng, lang), smaller=rs_smaller) for _ in range(n)]
+        mans = rs_run(lang, cases)
+        for c in cases:
+            check.count("rust-type-syntax:translator-%s" % c["translated"].split(":")[0].replace(" ", "-"))
+            for k, v in c["feats"].items():
+                check.count("rust-type-syntax:" + k, v)
+        sweep(check, lang, cases, reported_langs, part="rust-type-syntax", mans=mans)
+
+
 # ------------------------------------------------------------------------------------------ python import (thorough)
 
 def stub_modules():
@@ -796,11 +1139,16 @@ def unescape_marks(ans):
     return {"ok": {k: re.sub(r"\\u\{([0-9a-f]{1,6})\}", un, v) for k, v in ans["ok"].items()}}
 
 
-def sweep(check, lang, cases, reported_langs, part=""):
+def sweep(check, lang, cases, reported_langs, part="", mans=None):
     """model and implementation on every case; the oracle on the implementation's output.  At most one failing input and one
-    broken-correspondence report per language (and part); the latter never hides the former"""
-    names = set().union(*[c["names"] for c in cases]) if lang == "python" else None
-    mans = [l2.norm(a) for a in model([c["m"] for c in cases], names=names)]
+    broken-correspondence report per language (and part); the latter never hides the former.
+    `mans`: the model's answers when the caller has run the model itself (source-text cases, whose model input is the translated
+    file); an entry None = the translator does not support the source, the case is judged by the oracle alone.
+    A case may carry `about` (a sentence for the report) and `smaller` (a function (check, case) -> None or (smaller case, its rejection,
+    the model's answer on it, whether the two agree), used on a rejected output)"""
+    if mans is None:
+        names = set().union(*[c["names"] for c in cases]) if lang == "python" else None
+        mans = [l2.norm(a) for a in model([c["m"] for c in cases], names=names)]
     rans_raw = runner([c["r"] for c in cases])
     # the Lean specification on the implementation's text (ties `lexOk` to real outputs)
     lex_reqs, lex_idx = [], []
@@ -822,7 +1170,9 @@ def sweep(check, lang, cases, reported_langs, part=""):
                 check.count(k, v)
             elif not part and k in ("keyword-tag", "type-override", "decorator", "doc", "item-rename", "rename", "default", "const", "alias", "enum", "struct"):
                 check.count(k, v)
-        agree = ma == ra
+        agree = ma is None or ma == ra
+        if ma is None:
+            check.count(part + ":judged-by-the-oracle-alone(translator-does-not-support-the-source)")
         if not agree and part and "ok" in ma and "ok" in ra and unescape_marks(ra) == ma:
             # typeshare writes string literals through Rust's escape_debug, which spells a Grapheme_Extend character (every
             # nonspacing mark) `\u{..}`; the model copies the character.  Only names with such marks (Rust identifiers may have
@@ -833,12 +1183,17 @@ def sweep(check, lang, cases, reported_langs, part=""):
         # one failing input and one broken-correspondence report per language; the latter never hides the former
         reported = (lang, "failing" + part) in reported_langs
         if bad and not reported:
-            name, text, rej, why = bad[0]
+            small = c["smaller"](check, c) if c.get("smaller") else None
+            if small:
+                c, (name, text, rej, why), ma, agree = small
+            else:
+                name, text, rej, why = bad[0]
             reported_langs.add((lang, "failing" + part))
             out_lines = text.split("\n")
             at = rej.tok[2] if rej.tok else 0
             shown = "; line %d of the output is %s" % (at, json.dumps(out_lines[at - 1].strip(), ensure_ascii=False)) if 0 < at <= len(out_lines) else ""
-            check.violation("%s%s output is not well-formed: %s%s; %s" % (part and part + ": ", lang, rej.describe(), shown, why),
+            check.violation("%s%s output is not well-formed: %s%s; %s%s" % (part and part + ": ", lang, rej.describe(), shown, why,
+                                                                              "; " + c["about"] if c.get("about") else ""),
                             case={"lang": lang, "config": c["cfg"], "source": c["texts"], "request": c["r"]},
                             impl={"file": name, "text": text}, model=ma if not agree else "(agrees with the implementation)",
                             failing_input=True)
@@ -868,7 +1223,10 @@ def run(check):
                   "1 in 8 cases multi-file; x 6 languages.  Unicode identifier part: the same generator with field / variant / type / "
                   "constant names, renames, item renames and tag / content keys over letters at the corners of the Unicode case mappings "
                   "(several-letter and mark-bearing upper / lower-case forms, title-case digraphs, dotless i, long s, sigmas, caseless "
-                  "letters, non-ASCII digits; 1 case in 5 also marks, letter numbers, connectors, middle dot).  non-trivial = the implementation produced at least one output file "
+                  "letters, non-ASCII digits; 1 case in 5 also marks, letter numbers, connectors, middle dot).  Rust-type-syntax part: source "
+                  "text whose type expressions instantiate user types with lifetime arguments, const generic arguments (literals, blocks, bare "
+                  "paths), bindings, type arguments or nothing, in every order and spelling, at field / payload / alias / newtype / serialized_as / "
+                  "generic-argument positions; model input = the translated source.  non-trivial = the implementation produced at least one output file "
                   "that went through the oracle")
     genmod.DOC_WORDS = list(genmod.DOC_WORDS) + DOC_EXTRA
     genmod.VARIANT_WORDS = list(genmod.VARIANT_WORDS) + VARIANT_EXTRA
@@ -879,6 +1237,7 @@ def run(check):
     for lang in LANGS:
         sweep(check, lang, make_cases(rng, lang, per_lang, check.thorough), reported_langs)
     unicode_identifiers_part(check, reported_langs)
+    rust_type_syntax_part(check, reported_langs)
     replay_witnesses(check)
     replay_repaired(check)
     replay_not_full(check)
